@@ -14,7 +14,7 @@ for p in task.get("prelude", []):
     rec.record_trace("prelude", p["tt"], p["ops"], p.get("cfg"))
     import biobalm.petri_net_translation as pnt
     pnt.DEBUG = False
-tr = rec.record_trace(task["tid"], task["tt"], task["ops"], task.get("cfg"))
+tr = rec.record_trace(task["tid"], task["tt"], task["ops"], task.get("cfg"), names=task.get("names"))
 if task.get("twice"):
-    tr = rec.record_trace(task["tid"], task["tt"], task["ops"], task.get("cfg"))
+    tr = rec.record_trace(task["tid"], task["tt"], task["ops"], task.get("cfg"), names=task.get("names"))
 print(json.dumps(tr))
